@@ -55,11 +55,26 @@ def plan(order, oc, text, prefix):
     return verdicts, expected, cur, rejected
 
 
+def v1_rail_variable_refusal(name):
+    """an input rail that refuses with a message taken from a variable (not a predefined bot message)"""
+    return f"""
+define flow {name}
+  $r = execute verif_rail(rail="{name}", text=$user_message)
+  if not $r
+    $refusal = "REFUSED-{name}"
+    bot $refusal
+    stop
+  if $r != True
+    $user_message = $r
+"""
+
+
 def explore(task):
-    dialog_world, subsets = task
+    dialog_world, subsets = task[:2]
+    variable_refusal = len(task) > 2 and task[2] == "variable-refusal"
     res = {"evaluations": 0, "rails_only_cases": 0, "blocked_cases": 0, "rewritten_cases": 0, "viol": []}
     world = rw.World(
-        "".join(rw.v1_rail(r, "input") for r in IN_ORDER) + "".join(rw.v1_rail(r, "output") for r in OUT_ORDER)
+        "".join((v1_rail_variable_refusal(r) if variable_refusal else rw.v1_rail(r, "input")) for r in IN_ORDER) + "".join(rw.v1_rail(r, "output") for r in OUT_ORDER)
         + (rw.V1_DIALOG if dialog_world else "") + RET,
         "rails:\n  input:\n    flows: [in1, in2]\n  output:\n    flows: [out1, out2]\n" + RET_YAML,
     )
@@ -67,17 +82,27 @@ def explore(task):
     n = [0]
     for subset in subsets:
         sel = set(subset)
-        for form in ("list", "dict"):
-            opt_rails = list(subset) if form == "list" else {c: (c in sel) for c in CATS}
+        for form in ("list", "dict", "object"):
+            opt_rails = list(subset) if form in ("list", "object") else {c: (c in sel) for c in CATS}
             options = {"rails": opt_rails, "log": {"activated_rails": True}}
+            if form == "object":
+                # the caller keeps ONE GenerationOptions object and passes it to every call
+                from nemoguardrails.rails.llm.options import GenerationOptions
+                options = GenerationOptions(**options)
             in_ocs = outs_in if "input" in sel else [None]
             out_ocs = outs_out if "output" in sel else [None]
             supplied_opts = [True, False] if "dialog" not in sel else [False]
             paths = (["predef", "llm"] if dialog_world else ["general"]) if "dialog" in sel else ["none"]
-            firsts = [None] if "dialog" in sel else [None, "blocked-input-only-call", "allowed-input-only-call"]
+            firsts = [None] if "dialog" in sel else [None, "blocked-input-only-call", "allowed-input-only-call", "cached-full-call"]
+            if form == "object":
+                firsts = [None] if "dialog" in sel else ["user-only-call-with-the-same-options-object"]
             for in_oc, out_oc, supplied, path, tk, first in itertools.product(in_ocs, out_ocs, supplied_opts, paths, ("plain", "hostile"), firsts):
                 if first and (tk == "hostile" or form == "dict"):
                     continue
+                if variable_refusal and (form != "list" or first or tk == "hostile" or not in_oc or "R" not in in_oc or (out_oc and out_oc != ("A", "A"))):
+                    continue  # this world only adds the blocked cases: the refusal text is then checked by the output rails
+                if form == "object" and (tk == "hostile" or (in_oc and "W" in in_oc) or (out_oc and "W" in out_oc and in_oc and in_oc != ("A", "A"))):
+                    continue  # object form: plain text, reduced verdict vectors
                 if "output" in sel and "dialog" not in sel and not supplied:
                     continue  # output rails without any bot message: not covered by the statement
                 if out_oc is not None and "dialog" in sel and path == "predef" and any(k != "A" for k in out_oc):
@@ -101,7 +126,23 @@ def explore(task):
                     v_out, _, _, _ = plan(OUT_ORDER, out_oc, "?", f"RWB{n[0]}q")
                 verdicts.update(v_out)
                 state = None
-                if first:
+                if first == "cached-full-call":
+                    # an earlier ordinary call (all rails, other options) of the same conversation, served from the
+                    # instance's events cache when the conversation comes back with one more message
+                    first_msgs = [{"role": "user", "content": f"F{n[0]}q first"}]
+                    t0 = rw.run_turn(world, first_msgs, {"in1": "A", "in2": "A", "out1": "A", "out2": "A", "ret1": "A"},
+                                     llm_fn_for("llm" if dialog_world else "general"), options={"log": {"activated_rails": True}})
+                    if t0.exc is not None or t0.reply is None:
+                        res["viol"].append((f"generate-raised:first-call", repr(t0.exc), {"first": first}))
+                        continue
+                    msgs = first_msgs + [{"role": "assistant", "content": t0.text}] + msgs
+                    res["two_call_cases"] = res.get("two_call_cases", 0) + 1
+                elif first == "user-only-call-with-the-same-options-object":
+                    # e.g. a pre-check of a user input that the first input rail blocks (the reply is not judged here)
+                    rw.run_turn(world, [{"role": "user", "content": f"F{n[0]}q first"}], {"in1": "R", "in2": "A", "out1": "A", "out2": "A", "ret1": "A"},
+                                llm_fn_for(path), options=options)
+                    res["two_call_cases"] = res.get("two_call_cases", 0) + 1
+                elif first:
                     # an earlier rails-only call of the same conversation (continued through `state`)
                     t0 = rw.run_turn(world, [{"role": "user", "content": f"F{n[0]}q first"}],
                                      {"in1": "R" if first.startswith("blocked") else "A", "in2": "A", "ret1": "A"}, llm_fn_for(path),
@@ -113,13 +154,13 @@ def explore(task):
                     res["two_call_cases"] = res.get("two_call_cases", 0) + 1
                 turn = rw.run_turn(world, msgs, verdicts, llm_fn_for(path), options=options, state=state)
                 res["evaluations"] += 1
-                info = {"engine": "E3-world", "prop": "C16", "dialog_world": dialog_world, "subset": list(subset), "form": form,
+                info = {"engine": "E3-world", "prop": "C16", "dialog_world": dialog_world, "variable_refusal": variable_refusal, "subset": list(subset), "form": form,
                         "in_outcome": "".join(in_oc) if in_oc else None, "out_outcome": "".join(out_oc) if out_oc else None,
                         "supplied": supplied, "path": path, "user": user_text, "bot": bot_text if supplied else None, "first_call": first}
                 key = "+".join(c for c in CATS if c in sel) or "none"
 
                 def bad(sig, what):
-                    res["viol"].append((f"{sig}:{key}" + (f":after-{first}" if first else ""), what, info))
+                    res["viol"].append((f"{sig}:{key}" + (f":after-{first}" if first else "") + (":refusal-from-variable" if variable_refusal else ""), what, info))
 
                 if turn.exc is not None:
                     bad("generate-raised", f"{turn.exc!r}")
@@ -142,7 +183,7 @@ def explore(task):
                     res["blocked_cases"] += 1
                     if turn.text != f"REFUSED-{rej_in}":
                         bad("reply-is-not-the-refusal", f"input rail {rej_in} blocked; reply {turn.text!r}")
-                    if out_calls and "dialog" not in sel:
+                    if out_calls and "dialog" not in sel and not variable_refusal:
                         bad("output-rails-after-input-block", f"output rails ran after the input was blocked: {out_calls}")
                 elif "dialog" not in sel:
                     res["rails_only_cases"] += 1
@@ -218,6 +259,7 @@ def run(rep, tier):
     for dw in (False, True):
         for i in range(0, len(subs), 2):
             ts.append((dw, subs[i:i + 2]))
+    ts.append((False, [x for x in subs if "input" in x], "variable-refusal"))
     agg = {}
     for r in par.pmap(explore, ts):
         for k, v in r.items():
@@ -242,7 +284,7 @@ def run(rep, tier):
 
 def replay(rp):
     world = rw.World(
-        "".join(rw.v1_rail(r, "input") for r in IN_ORDER) + "".join(rw.v1_rail(r, "output") for r in OUT_ORDER)
+        "".join((v1_rail_variable_refusal(r) if rp.get("variable_refusal") else rw.v1_rail(r, "input")) for r in IN_ORDER) + "".join(rw.v1_rail(r, "output") for r in OUT_ORDER)
         + (rw.V1_DIALOG if rp["dialog_world"] else "") + RET,
         "rails:\n  input:\n    flows: [in1, in2]\n  output:\n    flows: [out1, out2]\n" + RET_YAML,
     )
